@@ -267,6 +267,30 @@ def r2_r3_r4(ctx, retsets):
         e = vf.expr(fn, call.args[2])
         r = vf.root_of(e)
         return r
+    # decided by evaluation where the apply phase can be run on a small concrete response (three records per family, one update
+    # fails): the undo calls after the failure must be exactly the records applied before it, on the table they were applied to
+    from specs import _undo_eval
+    ev = _undo_eval.evaluate(ctx, pdb, fn, apply_loops, retsets, UPDATE, UNDO) if len(apply_loops) == 3 else None
+    if ev is not None:
+        for k, (L, up) in enumerate(apply_loops):
+            rows = [r for r in ev if r[0] == k]
+            bad = []
+            wrong = []
+            for (_k, i, want, paths) in rows:
+                if not paths:
+                    bad.append("update #%d of this family fails: no path reaches a return" % i)
+                for (got, applied, o, wt) in paths:
+                    if got != want:
+                        bad.append("update #%d of this family fails after %s were applied: undone %s" % (i, applied or "nothing", got or "nothing"))
+                    wrong += wt
+            ctx.check(not wrong, "C03.R3", "undo-same-table:arm%d" % (k + 1), up.loc(),
+                      "undo calls roll back the table that was updated" if not wrong else "undo at line %s works on another table than the updates" % wrong[0],
+                      key="C03.R3:undo-table:arm%d" % (k + 1))
+            ctx.check(not bad, "C03.R3", "undo-coverage:arm%d(%s)" % (k + 1, up.callee), up.loc(),
+                      bad[0] if bad else "evaluated with %d records per family: whichever update of this family fails, exactly the records applied before it "
+                      "are undone, each once (earlier families completely, this family up to the failing record)" % _undo_eval.NREC,
+                      key="C03.R3:undo-coverage:arm%d" % (k + 1))
+        return
     shared = [c for c in fn.calls() if c.callee in UNDO and not any(fn.dom(up, c) for L, up in apply_loops)]
     if shared:
         raise AnalysisBroken("%s: the roll-back at line %d is one block reached from several apply loops (it belongs to no single failing "
